@@ -289,11 +289,12 @@ def finish(case, rm):
 
 NS_SMALL = [1, 2, 2, 3, 3, 4, 4, 5, 5, 6, 6, 7, 8]
 NS_LARGE = [1, 2, 3, 4, 5, 6, 7, 8, 9, 9, 10, 10, 11, 11, 12, 12, 13, 13, 14, 14]
+NS_BIG = [15, 16, 17, 18, 20, 24, 31, 32, 33, 40]      # beyond small-array special cases of sorting / indexing routines
 
 
 @st.composite
 def count_matrix(draw, max_n=8):
-    n = draw(st.sampled_from(NS_SMALL if max_n <= 8 else NS_LARGE))
+    n = draw(st.sampled_from(NS_SMALL if max_n <= 8 else NS_LARGE if max_n <= 14 else NS_BIG))
     thr = draw(st.sampled_from([1, 1, 2, 2, 3, 4]))
     mode = draw(st.sampled_from(["blocks", "blocks", "blocks", "random"]))
     u = draw(st.lists(st.integers(0, 99), min_size=n * n, max_size=n * n))
@@ -730,6 +731,9 @@ CLAUSES = [
            quick=250, thorough=4000),
     Clause("input_unchanged", trim_case(), run_unchanged, quick=1000, thorough=16000),
     Clause("msm_mapping", assigns_case(), run_msm, quick=500, thorough=10000),
+    Clause("mapping_big", trim_case(max_n=40), run_mapping, quick=60, thorough=1500),
+    Clause("submatrix_big", trim_case(max_n=40), run_submatrix, quick=60, thorough=1500),
+    Clause("heaviest_scc_big", trim_case(max_n=40), run_heaviest, quick=60, thorough=1500),
     Clause("heaviest_scc_large", trim_case(max_n=14), run_heaviest, quick=0, thorough=10000),
     Clause("mapping_large", trim_case(max_n=14), run_mapping, quick=0, thorough=6000),
     Clause("variants_agree_large", trim_case(max_n=14), run_variants, quick=0, thorough=6000),
